@@ -388,7 +388,7 @@ theorem inv_step (cfg : EngCfg) (n : Nat) (s : EState) (c : EChoice) (h : Inv n 
     · rename_i hres
       split
       · rename_i hctx
-        have hext : s.extC = true := by rw [← h.ctxNone hres]; exact hctx
+        have hext : s.extC = true := by rw [← h.ctxNone hres]; exact hctx.2
         constructor <;> simp only [ret]
         · exact h.len
         · exact h.awaited
@@ -445,6 +445,39 @@ theorem suppress_enabled (cfg : EngCfg) (hcfg : cfg.sendSelects = true) (n : Nat
     · rw [List.getElem?_eq_none hl] at hp; cases hp
   simp only [estep, hp, hcfg, hc, and_self, if_true]
   exact getElem?_set_self_lt _ _ _ hlt
+
+/-- after the caller's cancel the `ctx.Done()` case of the main loop's select is ready, whatever the pools do -/
+theorem mainCtx_enabled (cfg : EngCfg) (hcfg : cfg.mainSelects = true) (n : Nat) (cs : List EChoice)
+    (hext : (erun cfg n cs).extC = true) (hres : (erun cfg n cs).result = none) :
+    (estep cfg (erun cfg n cs) .mainCtx).result = some ERes.ctx := by
+  have hi := run_inv cfg n cs
+  have hc : (erun cfg n cs).ctxDone = true := by rw [hi.ctxNone hres]; exact hext
+  simp [estep, hres, hcfg, hc, ret]
+
+/-- a main loop that reads the results with a plain receive has NO enabled step while every pool goroutine is still
+inside `pool.Run`, cancelled or not: `Engine.Run` then returns only when some `pool.Run` does -/
+theorem plain_receive_stuck (cfg : EngCfg) (hcfg : cfg.mainSelects = false) (n : Nat) (cs : List EChoice)
+    (hall : ∀ p ∈ (erun cfg n cs).pools, p = PoolG.running) (c : EChoice) (hc : c.isMain = true) :
+    estep cfg (erun cfg n cs) c = erun cfg n cs := by
+  have hi := run_inv cfg n cs
+  cases c with
+  | recv =>
+    simp only [estep]
+    split
+    · rename_i i r _ hch
+      have hs := hi.chanSome i r hch
+      have := hall _ (List.mem_of_getElem? hs)
+      cases this
+    · rfl
+  | mainCtx =>
+    simp only [estep]
+    split
+    · simp [hcfg]
+    · rfl
+  | extCancel => cases hc
+  | poolRet _ _ => cases hc
+  | send _ => cases hc
+  | suppress _ => cases hc
 
 end Pandora.Proofs.C05.Sys
 
